@@ -5,7 +5,7 @@
    callback that asks to stop at its k-th call; 0 = never). Result and the list of
    callback calls (file index, files_done, error). *)
 From Coq Require Import Lia.
-From Torf Require Import Base Filesize FilesizeProofs.
+From Torf Require Import Base Extracted Geometry Stream GeometryProofs IterSpec IterProofs IterDamage Filesize FilesizeProofs FilesizeAgree.
 Open Scope Z_scope.
 
 (* no callback: True iff every listed file exists with exactly the recorded size, otherwise the
@@ -58,6 +58,28 @@ Theorem C20_single_at_directory : forall files disk k,
   verify_filesize (Some k) true files disk = (FRet false, [(0, 1, Some FEIsDir)]).
 Proof. intros. split; reflexivity. Qed.
 Print Assumptions C20_single_at_directory.
+
+(* UNBOUNDED agreement with full verification (two independently written models: the piece reader of
+   model/Stream.v and the size check of model/Filesize.v): for every disk, file list, piece length and
+   open-handle table, if reading the whole content reports no error for any piece -- which a successful
+   verify() needs -- then the size check returns True, without a callback and with a passive one.
+   [fstate_of d f] is what the size check finds at f's path: missing, or present with some size. *)
+Theorem C20_never_disagrees_with_full_read : forall d L fs h items,
+  0 < L -> allpos fs -> NoDup fs ->
+  iter_pieces d h fs L = Ok items -> flat_map excs_of items = [] ->
+  fst (verify_filesize None false (map fsize fs) (map (fstate_of d) fs)) = FRet true /\
+  fst (verify_filesize (Some 0) false (map fsize fs) (map (fstate_of d) fs)) = FRet true.
+Proof. exact filesize_agrees_with_full_read. Qed.
+Print Assumptions C20_never_disagrees_with_full_read.
+
+(* non-vacuity: three files (3, 1 and 6 bytes), piece length 4: the full read yields 3 pieces without errors *)
+Example C20_agreement_example :
+  let d := disk_of [3; 1; 6] [DOk; DOk; DOk] in
+  let fs := files_of [3; 1; 6] in
+  (forallb (fun f => 0 <? fsize f) fs = true) /\
+  (exists items, iter_pieces d [] fs 4 = Ok items /\ flat_map excs_of items = [] /\ length items = 3%nat) /\
+  map (fstate_of d) fs = [FSize 3; FSize 1; FSize 6].
+Proof. vm_compute. split; [reflexivity|]. split; [eexists; repeat split; reflexivity|reflexivity]. Qed.
 
 Example C20_example :
   verify_filesize (Some 0) false [5; 7; 9] [FSize 5; FMissing; FSize 8] =
